@@ -251,6 +251,12 @@ def check_spec(case):
                                 whatif[nid] = c_['v'] + 1.0
                     if whatif:
                         m.calculate(inputs=whatif)
+                        # the files were written from `sol`: naming it explicitly compares them with that solution, whatever the
+                        # model calculated last
+                        diff = m.compare(*files, solution=sol)
+                        if diff:
+                            fails.append(('compare|nonempty-explicit-solution-after-later-calculation',
+                                          'after calculate(inputs=...), compare(files of the earlier solution, solution=<that solution>) reports %s' % (diff[:3],)))
                         diff = m.compare(*files)
                         if diff:
                             fails.append(('compare|nonempty-after-whatif', 'after calculate(inputs=...) on the same model, compare() reports %s' % (diff[:3],)))
